@@ -839,7 +839,9 @@ func (c *layoutCtx) fixedEnc(evs []*Event) *FieldLayout {
 						}
 						for side := 0; side < 2; side++ {
 							if k, isC := v.Args[side].Int64(); isC && fmt.Sprintf("%d", k&0xFF) == p {
-								if q := padString(v.Args[1-side]); !isDecimal(q) && (pad == "" || pad == q) {
+								// (the other side is a pad byte – a byte or rune value –, not some length that happens to be
+								// compared with the same number: a 32-byte field padded with ' ' = 32)
+								if q := padString(v.Args[1-side]); !isDecimal(q) && (pad == "" || pad == q) && byteOrRune(v.Args[1-side]) {
 									p = q
 								}
 							}
@@ -2437,4 +2439,13 @@ func sameElement(b1, i1, b2, i2 *Val) bool {
 	}
 	a1, a2 := o1.Add(affOf(i1), 1), o2.Add(affOf(i2), 1)
 	return !a1.Top && !a2.Top && a1.Equal(a2)
+}
+
+// byteOrRune: v is of type byte (uint8) or rune (int32) – what a pad character is held in.
+func byteOrRune(v *Val) bool {
+	if v == nil || v.Type == nil {
+		return false
+	}
+	b, ok := v.Type.Underlying().(*types.Basic)
+	return ok && (b.Kind() == types.Uint8 || b.Kind() == types.Int32)
 }
